@@ -45,10 +45,11 @@ WithPrintCb(r, cbs) ==
       r2 == IF "l" \in cbs THEN [r1 EXCEPT !.opts[3].cb = @ \cup {"print"}] ELSE r1
       r3 == IF "fn" \in cbs THEN [r2 EXCEPT !.opts[10].cb = @ \cup {"print"}] ELSE r2
       r4 == IF "t|x" \in cbs THEN [r3 EXCEPT !.opts[9].vals[1].opts[1].cb = @ \cup {"print"}] ELSE r3
-  IN r4
+      r5 == IF "nd" \in cbs THEN [r4 EXCEPT !.opts[5].cb = @ \cup {"print"}] ELSE r4     \* an unset scalar
+  IN r5
 
 Setups ==
-  [froot : 0..2, fsec : {0, 1, 3}, fsub : {0, 1}, ft1 : {0, 3}, cbs : SUBSET {"i", "l", "fn", "t|x"},
+  [froot : 0..2, fsec : {0, 1, 3}, fsub : {0, 1}, ft1 : {0, 3}, cbs : SUBSET {"i", "l", "fn", "t|x", "nd"},
    target : {"root", "rootind", "sec", "opt:l", "opt:sec", "opt:t", "opt:nd"}]
 
 Build(s) ==
@@ -125,7 +126,7 @@ P_C19_PrintCb ==
   \A i \in 1..Len(out) :
      out[i].kind \in {"scalar", "unset", "list", "func"} =>
         (HasMarker(out[i].text) <=>
-           \/ (out[i].ind = (IF setup.target = "rootind" THEN 2 ELSE 0) /\ out[i].name \in (setup.cbs \cap {"i", "l", "fn"}))
+           \/ (out[i].ind = (IF setup.target = "rootind" THEN 2 ELSE 0) /\ out[i].name \in (setup.cbs \cap {"i", "l", "fn", "nd"}))
            \/ (out[i].name = "x" /\ "t|x" \in setup.cbs /\
                \E j \in 1..(i-1) : out[j].kind = "open" /\ out[j].name = "t" /\ out[j].ind = out[i].ind - 1
                                    /\ (\A k \in (j+1)..(i-1) : out[k].ind >= out[i].ind)
